@@ -189,6 +189,34 @@ package y
 //@   ensures[size] len(result) == sz
 //@   assigns s.buf
 
+// Fixed-width big-endian helpers.
+//@ func U16ToBytes
+//@   props C20
+//@   ensures len(result) == 2 && be16(result, 0) == v
+//@   assigns nothing
+
+//@ func BytesToU16
+//@   props C20
+//@   requires len(b) >= 2
+//@   ensures result == be16(b, 0)
+//@   assigns nothing
+
+//@ func U32ToBytes
+//@   props C20
+//@   ensures len(result) == 4 && be32(result, 0) == v
+//@   assigns nothing
+
+//@ func BytesToU32
+//@   props C20
+//@   requires len(b) >= 4
+//@   ensures result == be32(b, 0)
+//@   assigns nothing
+
+//@ func U64ToBytes
+//@   props C20
+//@   ensures len(result) == 8 && be64(result, 0) == v
+//@   assigns nothing
+
 //@ func SafeCopy
 //@   props C06
 //@   ensures[content] bytes(result) == old(bytes(src))
